@@ -222,7 +222,68 @@ def _sensitive_strings(world, cfg, node=None):
             yield v
 
 
+def exhaustive(tier):
+    """Configurations held in lists that do not declare them: an untyped list, a list of AnyField items (root / nested),
+    with sensitive fields of their own, per mask and output form."""
+    for holder in ("untyped-list", "any-item-list"):
+        for place in ("root", "nested"):
+            for mask in (None, "", "*", "xx"):
+                for fmt in ("tree",) + tuple(trees.FORMATS):
+                    yield {"mode": "loose-list", "holder": holder, "place": place, "mask": mask, "fmt": fmt}
+
+
+def _loose_list_case(case, R):
+    cc = sandbox._state["cc"]
+    mask, fmt = case["mask"], case["fmt"]
+    R.label("loose-list", "loose-list:" + case["holder"])
+    R.nontrivial = mask is not None
+    item = cc.Schema()
+    item.name = cc.StringField()
+    item.token = cc.StringField(sensitive=True)
+    item.pin = cc.IntField(sensitive=True)
+    item.inner.key = cc.StringField(sensitive=True)
+    item.inner.note = cc.StringField()
+    schema = cc.Schema()
+    make = (lambda: cc.ListField()) if case["holder"] == "untyped-list" else (lambda: cc.ListField(cc.AnyField()))
+    if case["place"] == "root":
+        schema.held = make()
+        owner = lambda cfg: cfg
+        wrap = lambda t: t
+    else:
+        schema.a.b.held = make()
+        owner = lambda cfg: cfg.a.b
+        wrap = lambda t: {"a": {"b": t}}
+    schema.plain = cc.StringField(default="p")
+
+    def mk(n):
+        it = item()
+        it.name, it.token, it.pin = "n%d" % n, "token-%d-secret" % n, 1234 + n
+        it.inner.key, it.inner.note = "inner-key-%d" % n, "note"
+        return it
+
+    def shown(v):
+        if mask is None:
+            return v
+        return mask * len(str(v)) if len(mask) == 1 else mask
+    with sandbox.CaseDir() as d:
+        cfg = schema(key_filename=os.path.join(d, "key"))
+        owner(cfg).held = [mk(1), mk(2)]
+        want = dict(wrap({"held": [{"name": "n%d" % n, "token": shown("token-%d-secret" % n), "pin": shown(1234 + n), "inner": {"key": shown("inner-key-%d" % n), "note": "note"}} for n in (1, 2)]}), plain="p")
+        try:
+            if fmt == "tree":
+                got = cfg.to_tree(sensitive_mask=mask)
+            else:
+                got = c03._decode(cc, fmt, cfg.dumps(fmt, sensitive_mask=mask))
+        except Exception as exc:
+            R.label("loose-list:not-renderable")  # (whether such a list can be written in this format at all is C02's business)
+            return
+        R.check(trees.tree_eq(got, want), "masked" if mask is not None else "no-mask-no-change", "loose-list:%s" % case["holder"],
+                lambda: "configurations held in an %s (%s), mask %r, %s output: %s" % (case["holder"], case["place"], mask, fmt, trees.tree_diff(want, got)))
+
+
 def run_case(case, R):
+    if case.get("mode") == "loose-list":
+        return _loose_list_case(case, R)
     cc = sandbox._state["cc"]
     spec = case["spec"]
     mask = case["mask"]
